@@ -30,6 +30,7 @@ type Node struct {
 	S string           `json:"s,omitempty"`
 	X bool             `json:"x,omitempty"`
 	T string           `json:"t,omitempty"`
+	M int              `json:"m,omitempty"` // file: permission bits to materialise with (0 = 0644 / 0755 by X)
 }
 
 func nDir(c map[string]*Node) *Node   { return &Node{K: "dir", C: c} }
@@ -59,7 +60,11 @@ func encNode(n *Node) map[string]any {
 		}
 		return map[string]any{"k": "dir", "c": c}
 	case "file":
-		return map[string]any{"k": "file", "s": n.S, "x": n.X, "d": hex.EncodeToString(digestOf(n.S))}
+		m := map[string]any{"k": "file", "s": n.S, "x": n.X, "d": hex.EncodeToString(digestOf(n.S))}
+		if n.M != 0 {
+			m["m"] = n.M
+		}
+		return m
 	case "link":
 		return map[string]any{"k": "link", "t": n.T}
 	}
@@ -85,7 +90,9 @@ func decNode(v any) *Node {
 	case "file":
 		s, _ := m["s"].(string)
 		x, _ := m["x"].(bool)
-		return &Node{K: "file", S: s, X: x}
+		n := &Node{K: "file", S: s, X: x}
+		vlib.Decode(m["m"], &n.M)
+		return n
 	case "link":
 		t, _ := m["t"].(string)
 		return &Node{K: "link", T: t}
@@ -147,6 +154,9 @@ func materialise(path string, n *Node) error {
 		mode := os.FileMode(0o644)
 		if n.X {
 			mode = 0o755
+		}
+		if n.M != 0 {
+			mode = os.FileMode(n.M)
 		}
 		if err := os.WriteFile(path, []byte(n.S), mode); err != nil {
 			return err
